@@ -1358,4 +1358,261 @@ theorem incSafe (w : Nat) (hw : 0 < w) (c mod : List Nat) (bw A Bv : Nat)
         · rw [if_neg (fun h' => h (hmz.mp h')), if_neg h])
   exact ⟨e1, e2, s3, s4⟩
 
+/-! ## §10 zzHalfMod -/
+
+theorem or_hi {k p bit : Nat} (hp : p < 2 ^ k) : p ||| (2 ^ k * bit) = p + 2 ^ k * bit := by
+  rw [Nat.or_comm, ← Nat.two_pow_add_eq_or_of_lt hp, Nat.add_comm]
+
+theorem wshl_bit {k bit : Nat} (hb : bit ≤ 1) : wshl (k + 1) bit k = 2 ^ k * bit := by
+  have hH : 0 < 2 ^ k := Nat.two_pow_pos k
+  have hpow : 2 ^ (k + 1) = 2 * 2 ^ k := by rw [Nat.pow_succ, Nat.mul_comm]
+  show (bit * 2 ^ k) % 2 ^ (k + 1) = 2 ^ k * bit
+  rw [Nat.mul_comm bit]
+  apply Nat.mod_eq_of_lt
+  obtain rfl | rfl : bit = 0 ∨ bit = 1 := by omega
+  all_goals omega
+
+/-- one word of the right shift: `out = x/2 + c 2^(w-1)`, `2 out + x%2 = x + B c` -/
+theorem shrStep {k x c : Nat} (hx : x < 2 ^ (k + 1)) (hc : c ≤ 1) :
+    2 * (wshr x 1 ||| wshl (k + 1) c k) + x % 2 = x + 2 ^ (k + 1) * c
+    ∧ (wshr x 1 ||| wshl (k + 1) c k) < 2 ^ (k + 1) := by
+  have hpow : 2 ^ (k + 1) = 2 * 2 ^ k := by rw [Nat.pow_succ, Nat.mul_comm]
+  have hx2 : x / 2 < 2 ^ k := by omega
+  rw [wshl_bit hc]
+  show 2 * (x / 2 ^ 1 ||| 2 ^ k * c) + x % 2 = _ ∧ (x / 2 ^ 1 ||| 2 ^ k * c) < _
+  rw [Nat.pow_one, or_hi hx2, hpow]
+  have e := mul01 (2 ^ k) hc
+  have e2 : 2 * 2 ^ k * c = 2 * (2 ^ k * c) := by rw [Nat.mul_assoc]
+  constructor
+  · omega
+  · split_ifs at e <;> omega
+
+/-- the carry leaving the top-down shift loop: the parity of the last (lowest) word -/
+def halfOut : List Nat → Nat → Nat
+  | [], c => c
+  | x :: xs, _ => halfOut xs (x % 2)
+
+theorem halfOut_append (xs : List Nat) (x c : Nat) : halfOut (xs ++ [x]) c = x % 2 := by
+  induction xs generalizing c with
+  | nil => rfl
+  | cons y ys ih => simp only [List.cons_append, halfOut, ih]
+
+theorem Wf_reverse {w : Nat} {l : List Nat} (h : Wf w l) : Wf w l.reverse :=
+  fun x hx => h x (List.mem_reverse.mp hx)
+
+theorem val_snoc (w : Nat) (l : List Nat) (y : Nat) :
+    val w (l ++ [y]) = val w l + 2 ^ (w * l.length) * y := by
+  rw [val_append]; simp [val]
+
+theorem zzHalfLoop_length (w : Nat) (t : List Nat) (c : Nat) : (zzHalfLoop w t c).length = t.length := by
+  induction t generalizing c with
+  | nil => rfl
+  | cons x xs ih => simp [zzHalfLoop, ih]
+
+/-- the shift loop of FAST(zzHalfMod) (top word first) halves `value + B^n carry` -/
+theorem zzHalfLoop_spec (k : Nat) (t : List Nat) (c : Nat) (ht : Wf (k + 1) t) (hc : c ≤ 1) :
+    2 * val (k + 1) (zzHalfLoop (k + 1) t c).reverse + halfOut t c
+      = val (k + 1) t.reverse + 2 ^ ((k + 1) * t.length) * c
+    ∧ Wf (k + 1) (zzHalfLoop (k + 1) t c) := by
+  induction t generalizing c with
+  | nil => simp [zzHalfLoop, halfOut, val, Wf_nil]
+  | cons x xs ih =>
+    obtain ⟨hx, hxs⟩ := Wf_cons.mp ht
+    obtain ⟨i1, i2⟩ := ih (x % 2) hxs (by omega)
+    obtain ⟨s1, s2⟩ := shrStep hx hc
+    have hP : 2 ^ ((k + 1) * (xs.length + 1)) = 2 ^ ((k + 1) * xs.length) * 2 ^ (k + 1) := by
+      rw [Nat.mul_succ, Nat.pow_add]
+    simp only [zzHalfLoop, Nat.add_sub_cancel, List.reverse_cons, val_snoc, List.length_reverse,
+      zzHalfLoop_length, halfOut, List.length_cons, hP]
+    refine ⟨?_, Wf_cons.mpr ⟨s2, i2⟩⟩
+    generalize (wshr x 1 ||| wshl (k + 1) c k) = y at *
+    generalize 2 ^ ((k + 1) * xs.length) = Q at *
+    have h3 : Q * (2 * y + x % 2) = Q * (x + 2 ^ (k + 1) * c) := by rw [s1]
+    simp only [Nat.mul_add] at h3
+    have h4 : Q * (2 * y) = 2 * (Q * y) := by ring
+    have h5 : Q * (2 ^ (k + 1) * c) = Q * 2 ^ (k + 1) * c := by ring
+    omega
+
+theorem val_mod_two (k x : Nat) (xs : List Nat) : val (k + 1) (x :: xs) % 2 = x % 2 := by
+  have hpow : 2 ^ (k + 1) * val (k + 1) xs = 2 * (2 ^ k * val (k + 1) xs) := by
+    rw [Nat.pow_succ]; ring
+  rw [val_cons, hpow]
+  omega
+
+theorem halfOut_reverse (k : Nat) (l : List Nat) (hne : l ≠ []) (c : Nat) :
+    halfOut l.reverse c = val (k + 1) l % 2 := by
+  cases l with
+  | nil => exact absurd rfl hne
+  | cons x xs => rw [List.reverse_cons, halfOut_append, val_mod_two]
+
+theorem zzIsOdd_iff (k : Nat) (a : List Nat) : zzIsOdd a = true ↔ val (k + 1) a % 2 = 1 := by
+  cases a with
+  | nil => simp [zzIsOdd, val]
+  | cons x xs => rw [val_mod_two]; simp [zzIsOdd]
+
+/-- the whole top-down shift, in little-endian terms -/
+theorem halfShift_spec (k : Nat) (l : List Nat) (c : Nat) (hl : Wf (k + 1) l) (hc : c ≤ 1)
+    (hne : l ≠ []) :
+    2 * val (k + 1) (zzHalfLoop (k + 1) l.reverse c).reverse + val (k + 1) l % 2
+      = val (k + 1) l + 2 ^ ((k + 1) * l.length) * c
+    ∧ Wf (k + 1) (zzHalfLoop (k + 1) l.reverse c).reverse
+    ∧ (zzHalfLoop (k + 1) l.reverse c).reverse.length = l.length := by
+  obtain ⟨h1, h2⟩ := zzHalfLoop_spec k l.reverse c (Wf_reverse hl) hc
+  rw [List.reverse_reverse, List.length_reverse, halfOut_reverse k l hne] at h1
+  exact ⟨h1, Wf_reverse h2, by rw [List.length_reverse, zzHalfLoop_length, List.length_reverse]⟩
+
+/-- `B^n` is even for a non-empty number -/
+theorem pow_even (k n : Nat) (hn : 0 < n) (c : Nat) : ∃ q, 2 ^ ((k + 1) * n) * c = 2 * q := by
+  obtain ⟨m, hm⟩ : ∃ m, (k + 1) * n = m + 1 := ⟨(k + 1) * n - 1, by
+    have : 1 ≤ (k + 1) * n := Nat.mul_pos (by omega) hn
+    omega⟩
+  exact ⟨2 ^ m * c, by rw [hm, Nat.pow_succ]; ring⟩
+
+/-! ### SAFE(zzHalfMod) -/
+
+/-- the adder step of SAFE(zzHalfMod): `b = a + carry; carry = b < carry; b += t; carry |= b < t` -/
+def fAdd3 (w : Nat) (x y c : Nat) : Nat × Nat :=
+  (wadd w (wadd w x c) y, wless01 (wadd w x c) c ||| wless01 (wadd w (wadd w x c) y) y)
+
+theorem addStep3B {B x y c : Nat} (hx : x < B) (hy : y < B) (hc : c ≤ 1) :
+    let t := (x + c) % B
+    let c1 := wless01 t c
+    let s := (t + y) % B
+    let c2 := c1 ||| wless01 s y
+    s + B * c2 = x + y + c ∧ s < B ∧ c2 ≤ 1 := by
+  intro t c1 s c2
+  have ht : t = if x + c < B then x + c else x + c - B := mod_wrap (by omega)
+  have htB : t < B := Nat.mod_lt _ (by omega)
+  have hs : s = if t + y < B then t + y else t + y - B := mod_wrap (by omega)
+  have hc1 : c1 = if t < c then 1 else 0 := rfl
+  have hc2 : c2 = if c1 = 0 then (if s < y then 1 else 0) else 1 :=
+    lor01 (wless01_le _ _) (wless01_le _ _)
+  clear_value t c1 s c2
+  subst hc2 hc1
+  split_ifs at * <;> subst_vars <;> simp <;> omega
+
+theorem fAdd3_ok (w : Nat) : AddStepOK w (fAdd3 w) := fun _ _ _ hx hy hc => addStep3B hx hy hc
+
+/-- low-to-high right shift of the sum words `ss` with top carry `cout`; `prev` is the already
+    shifted previous word waiting for its top bit -/
+def shrLE (w : Nat) : Nat → List Nat → Nat → List Nat
+  | prev, [], cout => [prev ||| wshl w cout (w - 1)]
+  | prev, s :: ss, cout => (prev ||| wshl w (s % 2) (w - 1)) :: shrLE w (wshr s 1) ss cout
+
+theorem zzHalfMod_safeLoop_eq (w : Nat) (as ms : List Nat) (mask carry prev : Nat)
+    (hl : as.length = ms.length) :
+    zzHalfMod_safeLoop w as ms mask carry prev
+      = shrLE w prev (loop2 (fAdd3 w) as (ms.map (mask &&& ·)) carry).1
+          (loop2 (fAdd3 w) as (ms.map (mask &&& ·)) carry).2 := by
+  induction as generalizing ms carry prev with
+  | nil =>
+    cases ms with
+    | nil => simp [zzHalfMod_safeLoop, loop2, shrLE]
+    | cons _ _ => simp at hl
+  | cons x xs ih =>
+    cases ms with
+    | nil => simp at hl
+    | cons m ms =>
+      simp only [zzHalfMod_safeLoop, List.map_cons, loop2, shrLE, fAdd3]
+      rw [ih ms _ _ (by simpa using hl)]
+
+theorem shrLE_spec (k : Nat) (prev : Nat) (ss : List Nat) (cout : Nat)
+    (hp : prev < 2 ^ k) (hss : Wf (k + 1) ss) (hc : cout ≤ 1) :
+    val (k + 1) (shrLE (k + 1) prev ss cout)
+      = prev + 2 ^ k * (val (k + 1) ss + 2 ^ ((k + 1) * ss.length) * cout)
+    ∧ Wf (k + 1) (shrLE (k + 1) prev ss cout)
+    ∧ (shrLE (k + 1) prev ss cout).length = ss.length + 1 := by
+  have hpow : 2 ^ (k + 1) = 2 * 2 ^ k := by rw [Nat.pow_succ, Nat.mul_comm]
+  induction ss generalizing prev with
+  | nil =>
+    have e := mul01 (2 ^ k) hc
+    have h0 : shrLE (k + 1) prev [] cout = [prev + 2 ^ k * cout] := by
+      simp only [shrLE, Nat.add_sub_cancel, wshl_bit hc, or_hi hp]
+    rw [h0]
+    refine ⟨by simp [val], Wf_cons.mpr ⟨?_, Wf_nil _⟩, rfl⟩
+    split_ifs at e <;> omega
+  | cons s ss ih =>
+    obtain ⟨hs, hss'⟩ := Wf_cons.mp hss
+    have hw2 : wshr s 1 = s / 2 := by show s / 2 ^ 1 = s / 2; rw [Nat.pow_one]
+    have hs2 : s / 2 < 2 ^ k := by omega
+    obtain ⟨i1, i2, i3⟩ := ih (s / 2) hs2 hss'
+    have hb : s % 2 ≤ 1 := by omega
+    have e := mul01 (2 ^ k) hb
+    have h0 : shrLE (k + 1) prev (s :: ss) cout
+        = (prev + 2 ^ k * (s % 2)) :: shrLE (k + 1) (s / 2) ss cout := by
+      simp only [shrLE, Nat.add_sub_cancel, wshl_bit hb, or_hi hp, hw2]
+    have hP : 2 ^ ((k + 1) * (ss.length + 1)) = 2 ^ ((k + 1) * ss.length) * 2 ^ (k + 1) := by
+      rw [Nat.mul_succ, Nat.pow_add]
+    rw [h0, val_cons, val_cons, i1, List.length_cons, List.length_cons, i3, hP]
+    refine ⟨?_, Wf_cons.mpr ⟨by split_ifs at e <;> omega, i2⟩, rfl⟩
+    generalize val (k + 1) ss = V
+    generalize 2 ^ ((k + 1) * ss.length) = Q
+    have h1 : 2 ^ (k + 1) * (s / 2 + 2 ^ k * (V + Q * cout))
+        = 2 ^ k * (2 * (s / 2)) + 2 ^ k * (2 ^ (k + 1) * V + Q * 2 ^ (k + 1) * cout) := by
+      rw [hpow]; ring
+    have h2 : 2 ^ k * (2 * (s / 2)) + 2 ^ k * (s % 2) = 2 ^ k * s := by
+      rw [← Nat.mul_add]; congr 1; omega
+    have h3 : 2 ^ k * (s + 2 ^ (k + 1) * V + Q * 2 ^ (k + 1) * cout)
+        = 2 ^ k * s + 2 ^ k * (2 ^ (k + 1) * V + Q * 2 ^ (k + 1) * cout) := by ring
+    rw [h1, h3, ← h2]
+    omega
+
+/-- SAFE(zzHalfMod) halves the masked sum `L = a + (mod & mask)` computed by its adder -/
+theorem zzHalfMod_safe_val (k : Nat) (a0 : Nat) (as : List Nat) (m0 : Nat) (ms : List Nat)
+    (ha : Wf (k + 1) (a0 :: as)) (hm : Wf (k + 1) (m0 :: ms)) (hl : as.length = ms.length) :
+    2 * val (k + 1) (zzHalfMod_safe (k + 1) (a0 :: as) (m0 :: ms))
+        + val (k + 1) (loop2 (fAdd3 (k + 1)) (a0 :: as)
+            ((m0 :: ms).map (wneg (k + 1) (a0 % 2) &&& ·)) 0).1 % 2
+      = val (k + 1) (loop2 (fAdd3 (k + 1)) (a0 :: as)
+            ((m0 :: ms).map (wneg (k + 1) (a0 % 2) &&& ·)) 0).1
+        + 2 ^ ((k + 1) * (as.length + 1)) * (loop2 (fAdd3 (k + 1)) (a0 :: as)
+            ((m0 :: ms).map (wneg (k + 1) (a0 % 2) &&& ·)) 0).2
+    ∧ Wf (k + 1) (zzHalfMod_safe (k + 1) (a0 :: as) (m0 :: ms))
+    ∧ (zzHalfMod_safe (k + 1) (a0 :: as) (m0 :: ms)).length = as.length + 1 := by
+  obtain ⟨ha0, has⟩ := Wf_cons.mp ha
+  have hT := Wf_map_and hm (wneg (k + 1) (a0 % 2))
+  have hunf : zzHalfMod_safe (k + 1) (a0 :: as) (m0 :: ms)
+      = zzHalfMod_safeLoop (k + 1) as ms (wneg (k + 1) (a0 % 2))
+          (wless01 (wadd (k + 1) a0 (wneg (k + 1) (a0 % 2) &&& m0)) (wneg (k + 1) (a0 % 2) &&& m0))
+          (wshr (wadd (k + 1) a0 (wneg (k + 1) (a0 % 2) &&& m0)) 1) := rfl
+  rw [hunf]
+  generalize wneg (k + 1) (a0 % 2) = mask at *
+  rw [List.map_cons] at hT ⊢
+  obtain ⟨ht0, hts⟩ := Wf_cons.mp hT
+  obtain ⟨_, f2, f3⟩ := fAdd3_ok (k + 1) a0 (mask &&& m0) 0 ha0 ht0 (by omega)
+  have hf : fAdd3 (k + 1) a0 (mask &&& m0) 0
+      = (wadd (k + 1) a0 (mask &&& m0), wless01 (wadd (k + 1) a0 (mask &&& m0)) (mask &&& m0)) := by
+    simp only [fAdd3, wadd, wless01, Nat.add_zero, Nat.mod_eq_of_lt ha0, if_false,
+      Nat.not_lt_zero, Nat.zero_or]
+  have hsafe : zzHalfMod_safeLoop (k + 1) as ms mask
+          (wless01 (wadd (k + 1) a0 (mask &&& m0)) (mask &&& m0)) (wshr (wadd (k + 1) a0 (mask &&& m0)) 1)
+      = shrLE (k + 1) (wshr (fAdd3 (k + 1) a0 (mask &&& m0) 0).1 1)
+          (loop2 (fAdd3 (k + 1)) as (ms.map (mask &&& ·)) (fAdd3 (k + 1) a0 (mask &&& m0) 0).2).1
+          (loop2 (fAdd3 (k + 1)) as (ms.map (mask &&& ·)) (fAdd3 (k + 1) a0 (mask &&& m0) 0).2).2 := by
+    rw [hf]
+    rw [zzHalfMod_safeLoop_eq _ _ _ _ _ _ hl]
+  obtain ⟨_, r2, r3, r4⟩ := loop2_add (fAdd3_ok (k + 1)) as (ms.map (mask &&& ·))
+    (fAdd3 (k + 1) a0 (mask &&& m0) 0).2 has hts (by simpa using hl) f3
+  have hpow : 2 ^ (k + 1) = 2 * 2 ^ k := by rw [Nat.pow_succ, Nat.mul_comm]
+  have hS2 : wshr (fAdd3 (k + 1) a0 (mask &&& m0) 0).1 1 = (fAdd3 (k + 1) a0 (mask &&& m0) 0).1 / 2 := by
+    show _ / 2 ^ 1 = _; rw [Nat.pow_one]
+  obtain ⟨v1, v2, v3⟩ := shrLE_spec k (wshr (fAdd3 (k + 1) a0 (mask &&& m0) 0).1 1) _ _
+    (by rw [hS2]; omega) r3 r2
+  rw [hsafe]
+  simp only [loop2]
+  rw [r4] at v1 v3
+  refine ⟨?_, v2, v3⟩
+  rw [v1, val_mod_two, val_cons, hS2]
+  have hP : 2 ^ ((k + 1) * (as.length + 1)) = 2 ^ ((k + 1) * as.length) * 2 ^ (k + 1) := by
+    rw [Nat.mul_succ, Nat.pow_add]
+  rw [hP]
+  generalize (fAdd3 (k + 1) a0 (mask &&& m0) 0).1 = S0
+  generalize val (k + 1) (loop2 (fAdd3 (k + 1)) as (ms.map (mask &&& ·)) (fAdd3 (k + 1) a0 (mask &&& m0) 0).2).1 = V
+  generalize (loop2 (fAdd3 (k + 1)) as (ms.map (mask &&& ·)) (fAdd3 (k + 1) a0 (mask &&& m0) 0).2).2 = co
+  generalize 2 ^ ((k + 1) * as.length) = Q
+  have h1 : 2 * (S0 / 2 + 2 ^ k * (V + Q * co)) = 2 * (S0 / 2) + (2 ^ (k + 1) * V + Q * 2 ^ (k + 1) * co) := by
+    rw [hpow]; ring
+  rw [h1]
+  omega
+
 end Bee2V.C05
